@@ -615,7 +615,8 @@ pub fn progen(seed: u64) -> Program {
     let mut out = String::new();
     // templates 5..9 are structural stress shapes; the heavy ones (hundreds of macros or globals, a very
     // long main) cost 20-50 times an ordinary program and are kept rare
-    let template = match g.r.below(80) {
+    let template = match g.r.below(84) {
+        80..=83 => 10,
         0..=7 => 5,
         8 | 9 => 6,
         10 | 11 => 7,
@@ -686,6 +687,20 @@ pub fn progen(seed: u64) -> Program {
             out.push_str("void interrupt irqc() { leaf(); }\n");
         }
     }
+    if template == 10 {
+        // a call chain with fan-out: every level calls the next one `fan` times (inline expansion copies the
+        // callee per call site; call-graph walks see fan^levels paths); optionally 16-bit values nest through it
+        let levels = 1 + g.r.below(12);
+        let fan = 1 + g.r.below(if levels > 8 { 3 } else { 8 });
+        let inl = if g.r.chance(1, 2) { "inline " } else { "" };
+        out.push_str(&format!("{}void w{}() {{ acc++; }}\n", inl, levels));
+        for i in (0..levels).rev() {
+            let calls: Vec<String> = (0..fan).map(|_| format!("w{}();", i + 1)).collect();
+            out.push_str(&format!("{}void w{}() {{ {} }}\n", inl, i, calls.join(" ")));
+        }
+        out.push_str("short wide;\nchar narrow(short v) { return v; }\n");
+        g.funcs.push(Func { name: "w0".into(), params: vec![], returns: false });
+    }
     let nfun = 1 + g.r.usize_below(5);
     let mut decls: Vec<(Func, String)> = Vec::new();
     for i in 0..nfun {
@@ -735,7 +750,9 @@ pub fn progen(seed: u64) -> Program {
             protos.push(Func { name: format!("ext{}", i), params: vec![Ty::Char; np], returns });
         }
     }
+    let earlier = std::mem::take(&mut g.funcs);
     g.funcs = protos;
+    g.funcs.extend(earlier);
     let mut order: Vec<usize> = (0..decls.len()).collect();
     for i in (1..order.len()).rev() {
         let j = g.r.usize_below(i + 1);
@@ -763,6 +780,10 @@ pub fn progen(seed: u64) -> Program {
     }
     if let Some(m) = g.macros.iter().find(|m| m.1 == 9).cloned() {
         out.push_str(&format!("  sink = {};\n", m.0));
+    }
+    if template == 10 {
+        let d = 1 + g.r.usize_below(18);
+        out.push_str(&format!("  w0();\n  wide = {}wide{};\n", "narrow(".repeat(d), ")".repeat(d)));
     }
     g.scopes.pop();
     out.push_str("}\n");
